@@ -565,16 +565,6 @@ theorem ni_runWith (special : SpecialFn) (mode : Mode) (c' : Nat) (sig : Sig) (r
     ni
   · ni
 
-/-- the nested runner of EXEC (level 0) -/
-theorem ni_runInner (mode : Mode) (c' : Nat) : InnerNI c X (runInner mode c') := by
-  intro sig raw
-  unfold runInner
-  apply ni_runWith
-  intro args cis
-  apply ni_special
-  intro sig raw
-  ni
-
 theorem ni_nextPick : NI c X nextPick := by
   unfold nextPick
   refine NI.get_bind (fun s => ?_)
@@ -629,6 +619,15 @@ theorem ni_runScriptCmd (mode : Mode) (c' : Nat) (sig : Sig) (raw : List Bytes) 
     NI c X (runScriptCmd mode c' sig raw fromScript) := by
   have hbody := ni_scriptBody (c := c) (X := X) _ ni_special_stub mode c'
   unfold runScriptCmd; ni
+
+/-- the nested runner of EXEC (level 0) -/
+theorem ni_runInner (mode : Mode) (c' : Nat) : InnerNI c X (runInner mode c') := by
+  intro sig raw
+  refine runInner_cases (P := fun m => NI c X m) mode c' sig raw
+    (fun _ => ni_runScriptCmd mode c' sig raw false) (fun _ => ?_)
+  apply ni_runWith
+  intro args cis
+  exact ni_special_stub _ _ _ _ _
 
 /-- `_run_command` for a command issued by a client -/
 theorem ni_runCommand (mode : Mode) (c' : Nat) (sig : Sig) (raw : List Bytes) (fromScript : Bool) :
